@@ -577,7 +577,7 @@ def run(repo: Repo, rep: Report, tier: str) -> None:
     fallback_rule(repo, rep, decided, "the stub fold (R13)", completeness_rule, "C20.R4")
     type_table_rule(repo, rep, "C20.R5")
     fallback_rule(repo, rep, decided, "the stub fold (R13)", synthesised_name_rule, "C20.R6")
-    literal_rule(repo, rep, "C20.R7")
+    fallback_rule(repo, rep, decided, "the stub fold (R13)", literal_rule, "C20.R7")
     fresh_generation_rule(repo, rep, "C20.R8")
     rename_once_rule(repo, rep, "C20.R9")
     from .memo import memo_rule
